@@ -322,6 +322,15 @@ def run(case, filter_factory=DirectFilter, stop_on_exception=True, observer=None
                     flt.state.atCommandActions = table
             except Exception as exc:  # pylint: disable=broad-except
                 it.exception = "%s: %s" % (type(exc).__name__, exc)
+        elif it.kind == "set_ext":
+            # ["set_ext", {code: mode}]: the user changes the extended G-code table in the settings (takes effect at once)
+            try:
+                if hasattr(flt, "h"):
+                    flt.h.update_settings(extendedExcludeGcodes=[{"gcode": g, "mode": m, "description": ""} for g, m in item[1].items()])
+                else:
+                    flt.state.extendedExcludeGcodes = dict((fresh(g), ExcludedGcode(fresh(g), fresh(m), "")) for g, m in item[1].items())
+            except Exception as exc:  # pylint: disable=broad-except
+                it.exception = "%s: %s" % (type(exc).__name__, exc)
         elif it.kind == "event":
             # ["event", NAME]: OctoPrint event delivered to the plugin (plugin layer only)
             if item[1] == "PRINT_STARTED":
